@@ -182,6 +182,23 @@ theorem eval_pp_noexit (pk : PureOk xc) (fuel : Nat) (e : X.Expr) (σ : X.St) (c
     rfl
   exact (((pure_all xc pk fuel).1 (keys σ.locals) e (pp_imp xc ps hps _ hL e hp)) σ rfl).2 cd σ'
 
+theorem ppL_imp (L : List String) (hL : ∀ g, ps.contains g = true → L.contains g = false) :
+    (es : List X.Expr) → (∀ e ∈ es, ppE ps xc.impure e = true) → X.impL (imp0 xc L) es = false
+  | [], _ => by simp [X.impL]
+  | e :: es, h => by
+    simp only [X.impL, Bool.or_eq_false_iff]
+    exact ⟨pp_imp xc ps hps L hL e (h e (by simp)), ppL_imp L hL es (fun x hx => h x (by simp [hx]))⟩
+
+/-- The actuals of the class: no effect but on the step counter and the call log, no exit. -/
+theorem evalArgs_pp (pk : PureOk xc) (fuel : Nat) (es : List X.Expr) (σ : X.St)
+    (hp : ∀ e ∈ es, ppE ps xc.impure e = true) (hn : NoLoc ps σ) :
+    (∀ vs σ', X.evalArgs fuel xc es σ = .ok vs σ' → Sim σ σ') ∧ (∀ cd σ', X.evalArgs fuel xc es σ ≠ .exit cd σ') := by
+  have hL : ∀ g, ps.contains g = true → (keys σ.locals).contains g = false := by
+    intro g hg
+    rw [← lookup_isSome_keys, hn g hg]
+    rfl
+  exact ((pure_all xc pk fuel).2.1 (keys σ.locals) es (ppL_imp xc ps hps _ hL es hp)) σ rfl
+
 end
 
 /-! ### The expression theorem -/
